@@ -104,13 +104,13 @@ func NewFakeHost(self peer.ID, peers []peer.ID) *FakeHost {
 	return &FakeHost{id: self, ps: ps}
 }
 
-func (h *FakeHost) ID() peer.ID                                             { return h.id }
-func (h *FakeHost) Peerstore() peerstore.Peerstore                          { return h.ps }
-func (h *FakeHost) SetStreamHandler(protocol.ID, network.StreamHandler)     {}
-func (h *FakeHost) RemoveStreamHandler(protocol.ID)                         {}
-func (h *FakeHost) Addrs() []ma.Multiaddr                                   { return h.ps.Addrs(h.id) }
-func (h *FakeHost) Connect(ctx context.Context, pi peer.AddrInfo) error     { return nil }
-func (h *FakeHost) Close() error                                            { return nil }
+func (h *FakeHost) ID() peer.ID                                         { return h.id }
+func (h *FakeHost) Peerstore() peerstore.Peerstore                      { return h.ps }
+func (h *FakeHost) SetStreamHandler(protocol.ID, network.StreamHandler) {}
+func (h *FakeHost) RemoveStreamHandler(protocol.ID)                     {}
+func (h *FakeHost) Addrs() []ma.Multiaddr                               { return h.ps.Addrs(h.id) }
+func (h *FakeHost) Connect(ctx context.Context, pi peer.AddrInfo) error { return nil }
+func (h *FakeHost) Close() error                                        { return nil }
 func (h *FakeHost) NewStream(ctx context.Context, p peer.ID, pids ...protocol.ID) (network.Stream, error) {
 	if h.NewStreamFn == nil {
 		return nil, errors.New("fake host: no streams")
@@ -307,10 +307,10 @@ func (p *RecProcess) Stop() { p.stops.Add(1) }
 func (p *RecProcess) Ready(readyPeers []peer.ID, excludedPeers []peer.ID) (bool, error) {
 	return len(readyPeers) >= p.ReadyAt, nil
 }
-func (p *RecProcess) Retryable() bool                      { return p.Retry }
+func (p *RecProcess) Retryable() bool                         { return p.Retry }
 func (p *RecProcess) StartParams(readyPeers []peer.ID) []byte { return []byte{} }
-func (p *RecProcess) SessionID() string                    { p.sidCalls.Add(1); return p.SID }
-func (p *RecProcess) ValidCoordinators() []peer.ID         { return p.Coordinators }
+func (p *RecProcess) SessionID() string                       { p.sidCalls.Add(1); return p.SID }
+func (p *RecProcess) ValidCoordinators() []peer.ID            { return p.Coordinators }
 
 func (p *RecProcess) Runs() int           { return int(p.runs.Load()) }
 func (p *RecProcess) Stops() int          { return int(p.stops.Load()) }
